@@ -296,7 +296,30 @@ const (
 	StratSticky
 	StratPCT
 	StratRoundRobin // deterministic, no preemption: fault-free baseline
+	// StratPOS is partial-order sampling (Yuan, Yang, Gu: CAV 2018): every pending
+	// operation has a random priority, the highest enabled one runs, and after an
+	// operation on object o has run, every other task whose pending operation is on
+	// o gets a fresh priority (as does the task that ran, for its next operation).
+	// Orders of operations that conflict are thereby sampled far more evenly than a
+	// random walk does, while independent operations are not permuted needlessly.
+	StratPOS
 )
+
+func (st Strategy) String() string {
+	switch st {
+	case StratRandom:
+		return "random-walk"
+	case StratSticky:
+		return "sticky-random"
+	case StratPCT:
+		return "pct"
+	case StratRoundRobin:
+		return "round-robin"
+	case StratPOS:
+		return "partial-order-sampling"
+	}
+	return "?"
+}
 
 // Config configures one run.
 type Config struct {
@@ -448,7 +471,7 @@ func (s *Sim) drawBool(p float64) bool {
 func (s *Sim) newSTask(tk *task, gate chan resume, site string) *stask {
 	t := &stask{id: len(s.tasks), tk: tk, gate: gate, spawnSite: site}
 	t.req = request{kind: OpStart}
-	if s.cfg.Strategy == StratPCT {
+	if s.cfg.Strategy == StratPCT || s.cfg.Strategy == StratPOS {
 		if s.cfg.Replay {
 			t.prio = 0
 		} else {
@@ -574,6 +597,20 @@ func (s *Sim) pick(en []*stask) *stask {
 			} else {
 				chosen = en[0]
 			}
+		case StratPOS:
+			for _, t := range en {
+				if chosen == nil || t.prio > chosen.prio {
+					chosen = t
+				}
+			}
+			if o := chosen.req.obj; o != nil {
+				for _, t := range s.tasks {
+					if t != chosen && t.state != stDone && t.req.obj == o {
+						t.prio = 1 + s.rng.Intn(1<<20)
+					}
+				}
+			}
+			chosen.prio = 1 + s.rng.Intn(1<<20)
 		}
 	}
 	if lastEnabled && chosen != s.last {
@@ -768,6 +805,8 @@ func (s *Sim) exec(t *stask) {
 		if !o.locked {
 			o.locked = true
 			rep.ok = true
+		} else {
+			s.count("probe.trylock_failed", 1)
 		}
 	case OpMutexUnlock:
 		o := s.obj(r.obj, objMutex)
@@ -777,6 +816,9 @@ func (s *Sim) exec(t *stask) {
 			return
 		}
 		o.locked = false
+		if s.someoneWants(t, r.obj, OpMutexLock) {
+			s.count("probe.unlock_with_waiter", 1)
+		}
 	case OpRLock:
 		o := s.obj(r.obj, objRW)
 		oid = o.id
@@ -787,6 +829,8 @@ func (s *Sim) exec(t *stask) {
 		if !o.writer && o.pending == 0 {
 			o.readers++
 			rep.ok = true
+		} else {
+			s.count("probe.tryrlock_failed", 1)
 		}
 	case OpRUnlock:
 		o := s.obj(r.obj, objRW)
@@ -800,6 +844,11 @@ func (s *Sim) exec(t *stask) {
 		o := s.obj(r.obj, objRW)
 		oid = o.id
 		o.pending++
+		if o.readers > 0 {
+			s.count("probe.writer_waits_for_readers", 1)
+		} else if o.writer {
+			s.count("probe.writer_waits_for_writer", 1)
+		}
 		s.mix(uint64(t.id), uint64(r.kind), uint64(oid))
 		s.trace("t%d %s #%d", t.id, r.kind, oid)
 		r.kind = opWLockAcq
@@ -816,6 +865,8 @@ func (s *Sim) exec(t *stask) {
 		if !o.writer && o.readers == 0 && o.pending == 0 {
 			o.writer = true
 			rep.ok = true
+		} else {
+			s.count("probe.trywlock_failed", 1)
 		}
 	case OpWUnlock:
 		o := s.obj(r.obj, objRW)
@@ -880,6 +931,11 @@ func (s *Sim) exec(t *stask) {
 			ready, rep = s.tryRecv(c)
 		}
 		if !ready {
+			if r.kind == OpSend {
+				s.count("probe.send_parked", 1)
+			} else {
+				s.count("probe.recv_parked", 1)
+			}
 			s.mix(uint64(t.id), uint64(r.kind), uint64(oid), 1)
 			s.trace("t%d %s #%d parks", t.id, r.kind, oid)
 			if c != nil {
@@ -939,9 +995,11 @@ func (s *Sim) exec(t *stask) {
 		}
 		if len(ready) == 0 {
 			if r.deflt {
+				s.count("probe.select_default_taken", 1)
 				rep = resume{how: howDefault, idx: -1}
 				break
 			}
+			s.count("probe.select_parked", 1)
 			s.mix(uint64(t.id), uint64(r.kind), 0, 1)
 			s.trace("t%d select parks", t.id)
 			t.waits = t.waits[:0]
@@ -983,6 +1041,17 @@ func (s *Sim) exec(t *stask) {
 	s.mix(uint64(t.id), uint64(r.kind), uint64(oid))
 	s.trace("t%d %s #%d", t.id, r.kind, oid)
 	s.resumeTask(t, rep)
+}
+
+// someoneWants reports whether a task other than t is waiting to perform an
+// operation of the given kind on obj (probes only).
+func (s *Sim) someoneWants(t *stask, obj unsafe.Pointer, kind OpKind) bool {
+	for _, u := range s.tasks {
+		if u != t && u.state == stPending && u.req.kind == kind && u.req.obj == obj {
+			return true
+		}
+	}
+	return false
 }
 
 // park puts t to sleep: the task publishes its release edge first (it runs
@@ -1038,6 +1107,7 @@ func (s *Sim) trySend(c *chanModel) (bool, resume) {
 		return true, resume{how: howReal}
 	}
 	if len(c.recvq) > 0 {
+		s.count("probe.send_meets_parked_receiver", 1)
 		w := c.recvq[0]
 		box := w.box
 		s.wake(w, resume{how: howDone, ok: true})
@@ -1058,6 +1128,7 @@ func (s *Sim) tryRecv(c *chanModel) (bool, resume) {
 		c.len--
 		rep := resume{how: howReal}
 		if len(c.sendq) > 0 {
+			s.count("probe.recv_admits_parked_sender", 1)
 			w := c.sendq[0]
 			rep.put = w.put
 			c.len++
@@ -1069,6 +1140,7 @@ func (s *Sim) tryRecv(c *chanModel) (bool, resume) {
 		return true, resume{how: howReal}
 	}
 	if len(c.sendq) > 0 {
+		s.count("probe.recv_meets_parked_sender", 1)
 		w := c.sendq[0]
 		box := w.box
 		s.wake(w, resume{how: howDone, ok: true})
@@ -1221,7 +1293,10 @@ func (s *Sim) advanceClock() bool {
 			w := best.cm.recvq[0]
 			best.cm.len--
 			// was the waiting select also able to proceed on another case? no: it was parked.
+			s.count("probe.timer_wakes_parked_task", 1)
 			s.wake(w, resume{how: howReal})
+		} else {
+			s.count("probe.timer_fires_before_its_reader_arrives", 1)
 		}
 	}
 	return true
